@@ -75,7 +75,7 @@ def run(ctx):
         # plan (harness/cmd/c20/transport.go): lengths around the multiples of the MEASURED p2p.Conn write buffer
         # (2046..2050, 4094..4098, ...), around the read buffer (32766..32770) and IKNP chunk multiples, each in a
         # history (long after short, short after long, long after long), small and large moduli
-        vole_plan = [(ctx.seed, 170)] if quick else [(ctx.seed, 400), (ctx.seed + 1000, 400), (ctx.seed + 2000, 400)]
+        vole_plan = [(ctx.seed, 195)] if quick else [(ctx.seed, 400), (ctx.seed + 1000, 400), (ctx.seed + 2000, 400)]
         fx_plan = [(ctx.seed, 4000)] if quick else [(ctx.seed, 20000), (ctx.seed + 1000, 20000)]
         fxs_plan = [(ctx.seed, 1500)] if quick else [(ctx.seed, 8000), (ctx.seed + 1000, 8000)]
         for s, n in vole_plan:
@@ -145,6 +145,10 @@ def run(ctx):
         ctx.coverage["vole_grid_points"] = len(grid)
         ctx.oblige("vole ran on the 9 x 5 grid of boundary lengths x fixed moduli", len(grid) == 45,
                    "seen %d: %s" % (len(grid), sorted(grid)))
+        word = [k for k in c if k.startswith("vole_word_")]
+        ctx.coverage["vole_word_boundary_moduli_points"] = len(word)
+        ctx.oblige("vole ran on the moduli on both sides of the machine-word boundaries (2^31-1 .. 2^192-237) x lengths {1, 40}, "
+                   "planned by case index for every seed", len(word) == 24, "seen %d: %s" % (len(word), sorted(word)))
     ctx.coverage["rule"] = (
         "vole: every case is one Sender/Receiver pair with a history of 1..6 Mul calls (one call on 1 case in 5; 2..4 on grid "
         "cases); follow-up calls: same length / 1 / 1..longest-so-far / tiny / longer / EMPTY / random short, modulus same / "
